@@ -96,7 +96,8 @@ pub fn connect_and_run(
 /// authorize -> CONNACK); bit 3: the CONNACK's properties are written in reverse order; bit 4: the
 /// client's own CONNECT announces limits for the *inbound* direction (Receive Maximum 1000, Maximum
 /// Packet Size 1 MiB, topic alias maximum, keep alive, will, credentials), which never limit what
-/// it may send; bit 6: the Context has already served (and lost) an earlier connection; bit 5 (with bit 4; only for histories without inbound PUBLISH packets, where the
+/// it may send; bit 7 (scenario interpreter only): the first operations of the history are issued
+/// before connect() is called; bit 6: the Context has already served (and lost) an earlier connection; bit 5 (with bit 4; only for histories without inbound PUBLISH packets, where the
 /// scripted broker cannot exceed them): those limits are 1 and 256 bytes.
 pub fn connect_and_run_v(w: &mut World, spec: ConnectSpec, connack: &rc::Connack, plan: &WritePlan, variant: u8) -> Result<(), String> {
     if variant == 0 {
@@ -147,7 +148,27 @@ pub fn connect_and_run_v(w: &mut World, spec: ConnectSpec, connack: &rc::Connack
             w.tick();
             w.start_run();
             settle(w, plan, false);
-            w.reader.feed(vec![0x30, 0x0a, 0x00]);
+            // how it ended (selected by the low bits): end-of-stream inside a packet, or a write
+            // error 0..3 bytes into a PUBACK / inside a PUBREC / inside a PUBCOMP
+            let way = variant & 7;
+            let publish = |qos: u8, pid: u16| rc::encode(&rc::Packet::Publish(rc::Publish { qos, pid: Some(pid), topic: "earlier".into(), payload: vec![1], ..Default::default() }), &rc::Form::canonical());
+            match way {
+                0 | 1 => w.reader.feed(vec![0x30, 0x0a, 0x00]),
+                2..=5 => {
+                    w.writer.set_fault(crate::mockio::WriteFault::ErrAt(w.wire_len() + (way as usize - 2)));
+                    w.reader.feed(publish(1, 5));
+                }
+                6 => {
+                    w.reader.feed(publish(2, 6));
+                    settle(w, plan, false);
+                    w.writer.set_fault(crate::mockio::WriteFault::ErrAt(w.wire_len() + 1));
+                    w.reader.feed(rc::encode(&rc::Packet::Pubrel(rc::Ack { pid: 6, ..Default::default() }), &rc::Form::short()));
+                }
+                _ => {
+                    w.writer.set_fault(crate::mockio::WriteFault::ErrAt(w.wire_len() + 2));
+                    w.reader.feed(publish(2, 7));
+                }
+            }
             settle(w, plan, false);
         }
         w.reader.set_eof();
@@ -204,14 +225,14 @@ pub fn connect_and_run_v(w: &mut World, spec: ConnectSpec, connack: &rc::Connack
 /// generator for the prologue variant: half of the cases use the plain prologue
 pub fn prologue_variant() -> proptest::strategy::BoxedStrategy<u8> {
     use proptest::prelude::*;
-    prop_oneof![2 => Just(0u8), 2 => 0u8..32, 1 => (0u8..32).prop_map(|v| v | 64)].boxed()
+    prop_oneof![3 => Just(0u8), 3 => 0u8..32, 1 => (0u8..32).prop_map(|v| v | 64), 2 => (0u8..32).prop_map(|v| v | 128)].boxed()
 }
 
 /// `prologue_variant` for histories in which the broker sends no PUBLISH: the client-side limits
 /// may then be tiny
 pub fn prologue_variant_no_inbound() -> proptest::strategy::BoxedStrategy<u8> {
     use proptest::prelude::*;
-    prop_oneof![3 => Just(0u8), 3 => 0u8..32, 2 => (0u8..16).prop_map(|v| v | 48), 1 => (0u8..32).prop_map(|v| v | 64)].boxed()
+    prop_oneof![3 => Just(0u8), 3 => 0u8..32, 2 => (0u8..16).prop_map(|v| v | 48), 1 => (0u8..32).prop_map(|v| v | 64), 2 => (0u8..64).prop_map(|v| v | 128)].boxed()
 }
 
 pub fn first_panic(w: &World) -> Option<String> {
@@ -305,6 +326,12 @@ impl Tracker {
     pub fn skip_existing(&mut self, w: &mut World) {
         w.sync_wire();
         self.seen = w.pkts.len();
+    }
+
+    /// Skip the handshake only (CONNECT / AUTH packets at the start of the wire).
+    pub fn skip_handshake(&mut self, w: &mut World) {
+        w.sync_wire();
+        self.seen = w.pkts.iter().take_while(|p| matches!(&p.decoded, Ok(rc::Packet::Connect(_)) | Ok(rc::Packet::Auth(_)))).count();
     }
 
     pub fn update(&mut self, w: &mut World) {
